@@ -202,10 +202,36 @@ def check(ctx):
         ctx.check(bool(s.calls_named(lambda n: lib.tail(n, 1) == "syscall_with_validation")), "C17.a", "syscall:delegates", "%s:%d" % (s.file, s.line), "", "syscall does not delegate to syscall_with_validation")
     except mir.AnchorLost as e:
         ctx.fail("C17.a", "anchor-lost:syscall", "", str(e))
+    _cache_pairing(ctx, prog)
     _lifecycle(ctx, prog)
     _sysname(ctx, prog)
     _ext_siblings(ctx, prog)
     _archetype_update(ctx, prog)
+
+
+def _cache_pairing(ctx, prog):
+    """C17.a: the persistent per-function-type state lives in a resource keyed by the system type; whoever takes it out
+    (World::remove_resource::<K>) puts a K back on every path. A second entry point that borrows the 'take or create' code
+    but never stores the system back silently resets the state of the first."""
+    n = 0
+    for body in prog.bodies:
+        if not body.file.startswith("src/ecs/"):
+            continue
+        for b, t, fr in body.iter_calls():
+            if fr is None or lib.tail(mir.fn_name(fr), 2) not in ("World::remove_resource", "World::remove_non_send_resource"):
+                continue
+            key = (fr.get("args") or [""])[0]
+            if not re.search(r"(^|::)InitializedSystem<", key):
+                continue
+            n += 1
+            ctx.touch(body)
+            puts = [b2 for b2, t2, fr2 in body.iter_calls() if fr2 and lib.tail(mir.fn_name(fr2), 2) == "World::insert_resource" and (fr2.get("args") or [""])[0] == key]
+            w = lib.path_to_return_avoiding(body, [lib.call_target(body, b)], puts)
+            ctx.check(bool(puts) and w is None, "C17.a", "%s:cached-system-put-back" % lib.fkey(body), body.loc(b),
+                      "every path after remove_resource::<%s> re-inserts it" % key.split("::")[-1],
+                      "%s takes the cached system out (remove_resource::<%s>) and can return without putting it back: the persistent state of `syscall` with that system type is lost"
+                      % (lib.fkey(body), key.split("::")[-1]), lib.render_path(body, w) if w else None)
+    ctx.floor("C17.a", n, 1, "sites that take the cached system out of the world")
 
 
 def _lifecycle(ctx, prog):
